@@ -1280,6 +1280,14 @@ func (f Features) S(k string) string   { return Env{k: f.get(k)}.S(k) }
 func (f Features) IsNil(k string) bool { return f.get(k).Kind == KNil }
 func (f Features) Key(k string) string { return f.get(k).Key }
 
+// FreeAtom returns the value under which a branch condition outside the feature
+// model (a free atom, e.g. a comparison of two struct values) was explored, and
+// whether it was met on this path at all.
+func (f Features) FreeAtom(cond string) (val, met bool) {
+	v, ok := f.env["free:"+cond]
+	return ok && v.IsTrue(), ok
+}
+
 // DecideCfg configures a decision-table check.
 type DecideCfg struct {
 	Dom    Domain
